@@ -235,6 +235,63 @@ func vpH_C11_shared_list() {
 	vpReach("end")
 }
 
+// two walked positions populated together with values that are related to each other: the first holds the
+// bare IRI of the second's id, a thinner value of the same id and type, an equal copy, the very same
+// pointer, or an unrelated value. Whatever the relation, every embedded value that carries private lists is
+// cleaned - a walk that skips a position because "that item was seen already" (judged by ItemsEqual, by id,
+// or by type) leaves them in (seed C11-17).
+func vpH_C11_related() {
+	ti := vpTypeIndex(vpC11Types[vpChoice(3)])
+	x := vpNew(ti)
+	vpSetField(x, 0, 0, 'i')
+	positions := vpC11Walked
+	if vpTypeNames[ti] == "Activity" {
+		positions = append([]string{"Object", "Actor", "Target"}, vpC11Walked...)
+	}
+	i1 := vpChoice(len(positions))
+	i2 := vpChoice(len(positions))
+	if i1 == i2 {
+		return
+	}
+	p1, p2 := positions[i1], positions[i2]
+	deep := &Object{ID: vpMkIRI('d'), Type: NoteType}
+	deep.Bto, deep.BCC = vpPrivate('r')
+	second := &Actor{ID: vpMkIRI('e'), Type: PersonType, Summary: vpMk_NLV(0, 's'), Icon: deep}
+	second.Bto, second.BCC = vpPrivate('q')
+	var first Item
+	var firstObj *Actor
+	rel := vpChoice(5)
+	switch rel {
+	case 0:
+		first = second.ID
+	case 1:
+		firstObj = &Actor{ID: second.ID, Type: second.Type}
+		first = firstObj
+	case 2:
+		c := *second
+		c.Bto, c.BCC = vpPrivate('u')
+		firstObj = &c
+		first = firstObj
+	case 3:
+		first = second
+	default:
+		firstObj = &Actor{ID: vpMkIRI('f'), Type: PersonType}
+		firstObj.Bto, firstObj.BCC = vpPrivate('v')
+		first = firstObj
+	}
+	vpPlaceAtForm(x, p1, first, vpChoice(2))
+	vpPlaceAtForm(x, p2, second, vpChoice(2))
+	cell := vpTypeNames[ti] + "." + p1 + "+" + p2 + "/" + string(rune('0'+rel))
+	vpCleanable(x).Clean()
+	vpAssert("related/second-cleaned/"+cell, len(second.Bto) == 0 && len(second.BCC) == 0)
+	vpAssert("related/below-second-cleaned/"+cell, len(deep.Bto) == 0 && len(deep.BCC) == 0)
+	if firstObj != nil {
+		vpAssert("related/first-cleaned/"+cell, len(firstObj.Bto) == 0 && len(firstObj.BCC) == 0)
+	}
+	vpAssert("related/serialised/"+cell, !vpHasPrivate(vpMarshalOf(x)))
+	vpReach("end")
+}
+
 func vpW_C11_twin() {
 	x := &Object{ID: vpMkIRI('i'), Type: NoteType}
 	x.Clean()
